@@ -45,3 +45,39 @@ pub fn unhex_str(s: &str) -> String {
 }
 
 pub mod pool;
+
+pub mod synth {
+    //! Synthetic (leaked, 'static) metadata so that filters and collectors can be queried for any
+    //! point of a metadata universe through the `Dispatch` / `Filter` APIs, without macros.
+    use std::sync::OnceLock;
+    use tracing_core::{callsite::Callsite, collect::Interest, field::FieldSet, metadata::Kind, Level, Metadata};
+
+    pub struct SynthCallsite {
+        meta: OnceLock<&'static Metadata<'static>>,
+    }
+    impl Callsite for SynthCallsite {
+        fn set_interest(&self, _: Interest) {}
+        fn metadata(&self) -> &Metadata<'_> {
+            self.meta.get().expect("synthetic metadata")
+        }
+    }
+
+    pub fn level_of_rank(r: usize) -> Level {
+        match r { 1 => Level::ERROR, 2 => Level::WARN, 3 => Level::INFO, 4 => Level::DEBUG, _ => Level::TRACE }
+    }
+
+    pub fn mk_meta(name: &str, target: &str, rank: usize, is_event: bool, fields: &[String]) -> &'static Metadata<'static> {
+        let cs: &'static SynthCallsite = Box::leak(Box::new(SynthCallsite { meta: OnceLock::new() }));
+        let names: Vec<&'static str> = fields.iter().map(|f| &*Box::leak(f.clone().into_boxed_str())).collect();
+        let names: &'static [&'static str] = Box::leak(names.into_boxed_slice());
+        let fs = FieldSet::new(names, tracing_core::callsite::Identifier(cs));
+        let name: &'static str = Box::leak(name.to_string().into_boxed_str());
+        let target: &'static str = Box::leak(target.to_string().into_boxed_str());
+        let meta: &'static Metadata<'static> = Box::leak(Box::new(Metadata::new(
+            name, target, level_of_rank(rank), None, None, None, fs,
+            if is_event { Kind::EVENT } else { Kind::SPAN },
+        )));
+        let _ = cs.meta.set(meta);
+        meta
+    }
+}
